@@ -471,7 +471,21 @@ def run_all(modname, tier, jobs):
 
 
 # ------------------------------------------------------------------ native replay
-def native_replay(prop, obligation, info, o, outdir):
+def warmup_variants(cex, limit=8):
+    """neighbouring inputs for an earlier call on the same object: one string argument changed at its front / back"""
+    if not isinstance(cex, dict) or not isinstance(cex.get("self"), dict) or "__error__" in cex:
+        return []
+    out = []
+    for k, v in cex.items():
+        if k == "self" or not isinstance(v, str):
+            continue
+        for n in ("a" + v, "b" + v[1:] if v else "b", v + "a", "ab" + v):
+            if n != v and {k: n} not in out:
+                out.append({k: n})
+    return out[:limit]
+
+
+def native_replay(prop, obligation, info, o, outdir, warmup=None):
     """write a replay file and run it against the real code; returns (path, reproduced, output)"""
     os.makedirs(outdir, exist_ok=True)
     safe = "".join(ch if ch.isalnum() or ch in "._-" else "_" for ch in obligation)[:150]
@@ -484,6 +498,8 @@ def native_replay(prop, obligation, info, o, outdir):
            "clause": o["meta"].get("src"), "exc": o["meta"].get("exc"), "inputs": o.get("cex"),
            "replay_spec": info.get("replay"), "lemma": info.get("lemma"), "solver": o.get("backend"), "solver_output": o.get("detail"),
            "extra": o.get("replay")}
+    if warmup:
+        rep["warmup_calls"] = warmup
     with open(path, "w") as f:
         json.dump(rep, f, indent=1, default=str)
     reproduced, out = run_replay_file(path)
@@ -623,6 +639,29 @@ def main(prop, tier, seed, jobs=None, update_baseline=False):
                 lines.append(f"VIOLATION property={prop} replay={path}")
                 reported = True
                 break
+        if not reported and not info.get("replay") and not (o.get("replay") or o["meta"].get("replay")):
+            # the counter-model may sit in the pre-STATE of the object (a field the contract does not know, e.g. a cache a
+            # change introduced) rather than in the inputs: look for a two-call history on a freshly constructed object -
+            # the same call with a neighbouring input first - that shows the clause failing natively (bounded, only ever
+            # turns a refutation into a witness)
+            for fl in new_fail[:2]:
+                hist = None
+                for j, wc in enumerate(warmup_variants(fl.get("cex"))):
+                    o2 = dict(o)
+                    o2["cex"], o2["detail"] = fl["cex"], fl["detail"]
+                    path, reproduced, out = native_replay(prop, name + f"__history{j}", info, o2, outdir, warmup=[wc])
+                    if reproduced:
+                        hist = path
+                        break
+                    try:
+                        os.remove(path)
+                    except OSError:
+                        pass
+                if hist:
+                    real_viol.append(name)
+                    lines.append(f"VIOLATION property={prop} replay={hist}")
+                    reported = True
+                    break
         if not reported:
             imprecise = o["meta"].get("imprecise") or any((fl.get("meta") or {}).get("imprecise") for fl in new_fail)
             if o["meta"].get("bounded"):
